@@ -35,6 +35,8 @@ pub struct Case {
     pub bases: Vec<Option<Box<dyn FileSystem>>>,
     pub tmpdirs: Vec<PathBuf>,
     pub embfiles: Vec<(String, Vec<u8>)>,
+    /// building the configuration panicked: every operation of the case is reported as a panic
+    pub dead: bool,
     pub roots: Vec<VfsPath>,
     pub handles: HashMap<usize, Handle>,
     pub set_times: HashSet<i128>,
@@ -52,6 +54,7 @@ impl Case {
             bases: vec![],
             tmpdirs: vec![],
             embfiles: vec![],
+            dead: false,
             roots: vec![],
             handles: HashMap::new(),
             set_times: HashSet::new(),
@@ -561,12 +564,20 @@ fn main() {
             }
             ["base", "embempty"] => cur.bases.push(Some(Box::new(EmbeddedFS::<EmbEmpty>::new()))),
             ["fuel", _] => {}
-            t if config_line(&mut cur, t) => {}
+            t if {
+                match catch_unwind(AssertUnwindSafe(|| config_line(&mut cur, t))) {
+                    Ok(b) => b,
+                    Err(_) => {
+                        cur.dead = true;
+                        true
+                    }
+                }
+            } => {}
             ["op", rest @ ..] => {
                 let idx = cur.nops;
                 cur.nops += 1;
                 cur.shared.lock().unwrap().log.clear();
-                let r = catch_unwind(AssertUnwindSafe(|| run_op(&mut cur, idx, rest)));
+                let r = if cur.dead { Err(Box::new(()) as Box<dyn std::any::Any + Send>) } else { catch_unwind(AssertUnwindSafe(|| run_op(&mut cur, idx, rest))) };
                 let s = match r {
                     Ok(s) => s,
                     Err(_) => "panic".to_string(),
